@@ -93,8 +93,37 @@ func (c *collection) updateIndexedDoc(
 	if err != nil {
 		return err
 	}
+	// The given document may carry only the fields that are being updated. The indexed fields it
+	// does not carry keep their stored values, they must not be indexed as if they were cleared.
+	newDoc := doc
+	for _, field := range c.Definition().CollectIndexedFields() {
+		if _, err := doc.GetValue(field.Name); err == nil {
+			continue
+		}
+		oldVal, err := oldDoc.GetValue(field.Name)
+		if err != nil {
+			continue
+		}
+		if newDoc == doc {
+			newDoc, err = client.NewDocWithID(doc.ID(), c.Definition())
+			if err != nil {
+				return err
+			}
+			for docField, docVal := range doc.Values() {
+				err = newDoc.Set(docField.Name(), docVal.Value())
+				if err != nil {
+					return err
+				}
+			}
+		}
+		err = newDoc.Set(field.Name, oldVal.Value())
+		if err != nil {
+			return err
+		}
+	}
+
 	for _, index := range c.indexes {
-		err = index.Update(ctx, oldDoc, doc)
+		err = index.Update(ctx, oldDoc, newDoc)
 		if err != nil {
 			return err
 		}
